@@ -54,6 +54,23 @@ class SiteSpecHooks:
             st.ghost[key] = st.ghost.get(key, z3.IntVal(0)) + 1
         return NotImplemented
 
+    def on_branch(self, eng, st, cv, node, what='branch-condition'):
+        """sites with func='if' and contains=<text occurring in the body>: the branch is taken exactly when the spec holds."""
+        import ast as _ast
+        if not isinstance(node, _ast.If):
+            return
+        body_src = '\n'.join(_ast.unparse(b) for b in node.body)
+        for site in self.sites:
+            if site['func'] != 'if' or site['contains'] not in body_src:
+                continue
+            t, facts = eng.spec(site['spec'], st, {}, mode='prove')
+            s2 = st.fork()
+            for x in facts:
+                s2.assume(x)
+            eng.oblige(s2, 'site/%s@L%d' % (site['name'], node.lineno), eng.truth(st, cv) == t, kind='branch-site')
+        if self.inner is not None and hasattr(self.inner, 'on_branch'):
+            self.inner.on_branch(eng, st, cv, node, what)
+
     def init(self, eng, st):
         for site in self.sites:
             st.ghost.setdefault('n_site_' + site['name'], z3.IntVal(0))
